@@ -38,7 +38,7 @@ class Result:
             cov["exhaustive"] = bool(self.exhaustive)
         ev = dict(property_id=self.prop, tier=self.tier, seed=int(self.seed), level=self.level, coverage=cov,
                   assumptions=self.assumptions, wall_s=float(wall_s), violations=len(self.violations))
-        if os.environ.get("VERIF_COVERAGE"):  # measurement run (tools/coverage.py): evidence files are left alone
+        if os.environ.get("VERIF_COVERAGE") or os.environ.get("VERIF_MUTANT_RUN"):  # measurement run (tools/coverage.py) or a run against a deliberately broken tree (lib/mutant.py): evidence files are left alone
             return ev
         os.makedirs(EVIDENCE, exist_ok=True)
         tmp = os.path.join(EVIDENCE, self.prop + ".json.tmp")
